@@ -25,7 +25,7 @@ src = os.path.join(wt, "seed")
 dst = os.path.join("/verif/seeded", name)
 os.makedirs(dst, exist_ok=True)
 for f in ("patch.diff", "demo.py", "notes.md"):
-    if os.path.exists(os.path.join(src, f)):
+    if wt != "-" and os.path.exists(os.path.join(src, f)):
         shutil.copy(os.path.join(src, f), os.path.join(dst, f))
 patch = os.path.join(dst, "patch.diff")
 if not os.path.exists(patch) or os.path.getsize(patch) == 0:
@@ -54,7 +54,8 @@ try:
     if demo_src:
         for tag, d in (("clean", clean), ("patched", mut)):
             f = os.path.join(work, f"demo_{tag}.py")
-            open(f, "w").write(demo_src.replace(wt, d))
+            import re as _re
+            open(f, "w").write(_re.sub(r"/tmp/seed/C\d\d", d, demo_src))
             q = subprocess.run(["/venv/bin/python", f], capture_output=True, text=True, timeout=900, cwd=d)
             demo[tag] = q.returncode
             meta["ran"].append(f"demo.py on the {tag} copy: exit {q.returncode}" + ("" if q.returncode == 0 else " :: " + (q.stderr.strip().splitlines() or ["?"])[-1][:200]))
